@@ -124,7 +124,9 @@ class DAGRunConcurrentManager(DAGRunManagerLike):
         """
 
         for coro_task in coro_tasks:
-            if coro_task.done() and isinstance(coro_task.exception(), BaseException):
+            # Task.exception() raises CancelledError for a cancelled task; tasks cancelled by the engine
+            # itself (e.g. the remaining nodes of a failed OneOf branch) are not errors of the DAG.
+            if coro_task.done() and not coro_task.cancelled() and isinstance(coro_task.exception(), BaseException):
                 return coro_task.exception()
 
         return None
